@@ -23,6 +23,30 @@ def app(prop, theorems, explanation, assumptions, facts=None):
 
 
 PROPS = {
+    "C04": {
+        "module": "Shutter.Properties.C04",
+        "theorems": ["C04_shares_iff", "C04_keys_iff", "C04_no_effect", "C04_nondecreasing_pairwise", "C04_sql_pinned"],
+        "driver": {"pkg": "./cmd/valcheck"},
+        "facts": ["sql"],
+        "trusted_base": [KERNEL, CORR,
+                         "noderig: real handler objects, registries, combined validator (hook p2p.VerifNewMessaging / VerifValidate) and "
+                         "receive path over pgfake + kdb; libp2p-pubsub's rule 'only accepted messages reach the handler' is reproduced by "
+                         "the rig (Deliver) and is the premise of C04_no_effect",
+                         "modelled, not verified: BLS12-381 — whether a share / key decodes and verifies is computed by the real shcrypto "
+                         "functions and handed to the model per share / key (C01 is the theorem about what verification means)",
+                         "the int32 conversion of the keyper-set index in GetKeyperIndex is modelled as is (wrap32)"],
+        "explanation": "Theorems (Lean, every receiver database with its primary keys, every configuration, every message): the combined "
+                       "validator of key-share messages accepts IFF instance id matches, eon <= MaxInt64, the receiver is a keyper of the "
+                       "named set, the set's newest eon has a successful decodable result, 1 <= #shares <= max, identities non-decreasing, "
+                       "sender index < number of public key shares, every share decodes and verifies (C04_shares_iff); the same for keys "
+                       "messages with 'valid epoch key or byte-identical to the stored key' (C04_keys_iff); a message that is not accepted "
+                       "changes nothing and produces nothing (C04_no_effect). The real combined validator of a core keyper is driven with "
+                       "a valid message from the real producer / aggregator and every single and sampled (thorough: all) double mutation, "
+                       "plus envelope-level mutations, against 13 receiver database states, and compared with the model and with the "
+                       "statement evaluated directly; non-accepted messages are checked to leave the key tables untouched.",
+        "assumptions": ["primary keys of tendermint_batch_config, dkg_result and decryption_key (hypothesis Keyed)",
+                        "the core flavour; the Gnosis / Shutter-service validators add signature conditions covered by C06"],
+    },
     "C02": {
         "module": "Shutter.Properties.C02",
         "theorems": ["C02_time", "C02_event", "C02_sorted", "C02_distinct", "C02_history", "C02_never_again_time",
